@@ -239,7 +239,9 @@ impl LazyKnownValues {
             ]);
             *self.data.lock().unwrap() = Some(m);
         });
-        self.data.lock().unwrap()
+        // A panic in a caller that held the guard must not make the registry
+        // unusable for everyone else: recover the guard from a poisoned lock.
+        self.data.lock().unwrap_or_else(std::sync::PoisonError::into_inner)
     }
 }
 
